@@ -12,6 +12,12 @@ Streams
       unknown user, anonymous, user without password), model fn 4 (both loggers)
   S2  raw control-channel scripts (simnet.Raw) with odd verb spellings: PASS before USER, wrong
       then right then repeated PASS, PASS after an unknown USER, bare PASS; model fn 2
+  S3  Client.login's state machine against SCRIPTED servers: the real aioftp.Client (connect + login)
+      on simnet against a peer that sends a fixed script of reply lines whatever it is told --
+      bounded-exhaustive over words of continuing replies {331, 332, multi-line 331} followed by a
+      final one {230, multi-line 230 with a free continuation line, 530, 421, 333, nothing (EOF)},
+      plus malformed scripts; passwords with marker twins, several users / accounts; model fn 6
+      (client_login_run on the login PROGRAM regenerated from client.py by gen_logging)
   X   outside the property's domain, observed and reported, never a violation: TAB separator,
       leading blank, LF inside the password, undecodable bytes, over-long line (for the last two
       the marker oracle is still evaluated: the traceback must not carry the content)
@@ -386,6 +392,145 @@ def in_domain_line(verb, sep):
     return verb.lower() == "pass" and sep.startswith(" ")
 
 
+
+# ---------------------------------------------------------------------------- S3: scripted servers
+CONT = [["331 password, please"], ["332 account, please"], ["331-two", "331 lines"]]
+FINAL = [["230 welcome"], ["230-hello", "free text 230 inside", " 230 indented", "230 done"], ["530 no"], ["421 too busy"], ["333 odd"], None]
+MALFORMED = [
+    [["230-a", "231 b"]],  # continuation with another code: StatusCodeError after both lines are logged
+    [["hello"], ["331 pw"], ["230 ok"]],  # a non-numeric first line is continued by the next reply
+    [["33"], ["230 ok"]],  # Code('33').matches('33x'); no branch for it
+    [[""], ["331 pw"], ["230 ok"]],
+    [["331"], ["230"]],  # bare codes
+    [["332 acct"], ["332 again"], ["331 \u00e9\u5bc6 %s %(pw)s"], ["331 twice"], ["230-"], ["230 x"]],
+    [["331 pw"], ["331 pw"], ["331 pw"], ["331 pw"], ["331 pw"], ["530 enough"]],
+    [["120 wait"], ["230 ok"]],
+    [["331 pw  \t "], ["230 ok\x85"]],
+]
+S3_USERS = ["u", "anonymous", "x y"]
+S3_ACCOUNTS = ["acct", "", "a b", "%s{}", "ACCT"]
+ARGS = {"ArgUser": 0, "ArgPassword": 1, "ArgAccount": 2}
+STD_PROGRAM = {
+    "first": ("", "USER ", "ArgUser", None), "expected": ["230", "33x"], "mask": "33x", "init": None, "reset": 0,
+    "branches": [("331", "PASS ", "ArgPassword", 5), ("332", "ACCT ", "ArgAccount", None)],
+}
+
+
+def login_program():
+    """Client.login as gen_logging translates it from the source under test; (program, None) or
+    (today's program, reason) when login() no longer has the translated shape"""
+    try:
+        from tools.py2v import gen_logging
+
+        m = gen_logging.Module(pathlib.Path(aioftp.__file__).parent / "client.py")
+        return gen_logging.client_login_program(m), None
+    except Exception as e:
+        return STD_PROGRAM, f"{type(e).__name__}: {e}"
+
+
+def enc_program(lp):
+    oz = lambda v: [] if v is None else [v]
+    br = lambda b: [b[0], b[1], ARGS[b[2]], oz(b[3])]
+    return [br(lp["first"]), list(lp["expected"]), lp["mask"], oz(lp["init"]), oz(lp["reset"]), [br(b) for b in lp["branches"]]]
+
+
+def login_scripts(depth):
+    """every word of at most `depth` continuing replies followed by one final reply (None: the peer hangs up)"""
+    words = [[]]
+    out = []
+    for _ in range(depth + 1):
+        for w in words:
+            for f in FINAL:
+                out.append(w + ([f] if f is not None else []))
+        words = [w + [c] for w in words for c in CONT]
+    return out
+
+
+def run_scripted_login(groups, user, password, account, debug=False):
+    """the REAL aioftp.Client (connect, login) against a scripted peer on simnet.  The peer greets, then sends
+    the next group of reply lines whenever the client has gone quiet (so the client sees the flat line
+    stream whatever it sent), and hangs up when the script is exhausted while the client still waits.
+    Returns (outcome, commands received by the peer, canon records logged during login())."""
+    state = {}
+
+    async def main(net):
+        if debug:
+            asyncio.get_running_loop().set_debug(True)
+        peer = {}
+        got = asyncio.Event()
+
+        async def handler(reader, writer):
+            peer["r"], peer["w"] = reader, writer
+            writer.write(b"220 scripted peer\r\n")
+            got.set()
+
+        srv = await asyncio.start_server(handler, "127.0.0.1", 2121)
+        client = aioftp.Client()
+        await client.connect("127.0.0.1", 2121)
+        await got.wait()
+        await net.settle()
+        state["n0"] = len(cap.records)
+
+        async def login():
+            try:
+                await client.login(user, password, account)
+                return "logged-in"
+            except aioftp.StatusCodeError as e:
+                return "status:" + ",".join(str(c) for c in e.received_codes)
+            except ConnectionResetError:
+                return "reset"
+            except UnicodeEncodeError:
+                return "unencodable"
+            except Exception as e:  # whatever a modified client raises is an outcome, not an abort
+                return "raised:" + type(e).__name__
+
+        task = asyncio.ensure_future(login())
+        await net.settle()
+        for g in groups:
+            if task.done():
+                break
+            peer["w"].write("".join(l + "\r\n" for l in g).encode("utf-8"))
+            await net.settle()
+        if not task.done():
+            peer["w"].close()
+            await net.settle()
+        if not task.done():
+            task.cancel()
+            outcome = "hung"
+        else:
+            outcome = task.result()
+        state["n1"] = len(cap.records)
+        sent = bytes(peer["r"]._buffer).decode("utf-8", "replace").split("\r\n")
+        client.close()
+        peer["w"].close()
+        srv.close()
+        await net.settle()
+        return outcome, [l for l in sent if l]
+
+    with Capture() as cap:
+        outcome, sent = simnet.run(main, wall_timeout=60)
+    return outcome, sent, [canon(r) for r in cap.records[state["n0"] :]]
+
+
+def scripted_pair(rng, groups, user, p, account, debug=False):
+    """run one script with p and with its marker twin; returns (runs, oracle failures)"""
+    runs = []
+    for q in (p, twin(rng, p)):
+        try:
+            outcome, sent, cs = run_scripted_login(groups, user, q, account, debug=debug)
+        except Exception as e:  # harness-level failure: an observation, the search goes on
+            outcome, sent, cs = "harness:" + type(e).__name__ + ":" + str(e)[:80], [], []
+        runs.append((q, outcome, sent, cs))
+    fails = []
+    (p1, o1, s1, c1), (p2, o2, s2, c2) = runs
+    hit = has_marker(c2) if p2 != p1 else None
+    if hit:
+        fails.append(("leak", hit))
+    if o1 != o2 or transcript(c1) != transcript(c2):
+        fails.append(("twin", first_diff(transcript(c1), transcript(c2))))
+    return runs, fails
+
+
 # ---------------------------------------------------------------------------- the check
 def correspondence(ctx, budget=None):
     rng = ctx.rng
@@ -640,6 +785,68 @@ def correspondence(ctx, budget=None):
             xcheck.append((2, [censor, enc_users(spec), conn_addr(srv)[0], conn_addr(srv)[1], script], o))
     ctx.count("S2_raw_sessions", len(s2_runs))
 
+    # ------------------------------------------------------------ S3: Client.login against scripted servers
+    prog, prog_why = login_program()
+    ctx.extra["login_program"] = {"translated": prog_why is None, "why_not": prog_why, "program": enc_program(prog)}
+    depth = 3 + (2 if thorough else 0) + (1 if budget else 0)
+    scripts = login_scripts(depth) + MALFORMED
+    if thorough or budget:
+        for _ in range(300 * scale):  # random words over all reply shapes, malformed lines included
+            pool = CONT + [f for f in FINAL if f] + [g for m in MALFORMED for g in m]
+            scripts.append([rng.choice(pool) for _ in range(rng.randint(1, 7))])
+    s3_pws = [p for p in PW_FIXED if p.strip()]
+    s3_runs = []
+    s3_out = {}
+    n_pass = 0
+    for i, groups in enumerate(scripts):
+        p = s3_pws[i % len(s3_pws)] if i % 4 else gen_password(rng, long_ok=(i % 16 == 0))
+        if not p.strip():
+            p = "x" + p
+        try:
+            p.encode("utf-8")
+        except UnicodeEncodeError:
+            p = "pw"
+        user = S3_USERS[i % len(S3_USERS)]
+        account = S3_ACCOUNTS[(i // 3) % len(S3_ACCOUNTS)]
+        ctx.case(("S3", tuple(tuple(g) for g in groups), p, user, account))
+        ctx.traces_impl += 2
+        runs, fails = scripted_pair(rng, groups, user, p, account, debug=(i % 11 == 0))
+        for q, outcome, sent, cs in runs:
+            s3_out[outcome.split(":")[0]] = s3_out.get(outcome.split(":")[0], 0) + 1
+            if any(l == "PASS " + q for l in sent):
+                n_pass += 1
+            s3_runs.append((groups, user, q, account, outcome, cs))
+        for kind, info in fails:
+            rp = {"key": "c20-login-script-" + kind, "driver": "scripted-server", "script": groups, "user": user, "password": runs[0][0],
+                  "twin": runs[1][0], "account": account, "outcomes": [runs[0][1], runs[1][1]], "commands_received": runs[1][2]}
+            if kind == "leak":
+                rp.update({"logger": info[0][0], "record": list(info[0][:5]), "found": info[1]})
+                ctx.violation("a log record of Client.login against a scripted server contains a character of the password", rp)
+            else:
+                rp["diff"] = info
+                ctx.violation("log transcripts of Client.login against the same scripted server differ for two passwords of equal length", rp)
+    mo = ctx.model(
+        [(6, [enc_program(prog), user, q, account, [l + "\r\n" for g in groups for l in g]]) for groups, user, q, account, outcome, cs in s3_runs]
+    )
+    for (groups, user, q, account, outcome, cs), o in zip(s3_runs, mo):
+        cli = client_body(split_loggers(cs)[1])
+        mc = [mrec(x) for x in o]
+        if mc != [irec(c) for c in cli]:
+            ctx.disagree("S3-client-records", [groups, user, q, account, outcome], mc, [irec(c) for c in cli])
+        if len(q) < 8 and 2 <= len(groups) < 5 and sum(1 for x in xcheck if x[0] == 6) < 8:
+            if True:
+                xcheck.append((6, [enc_program(prog), user, q, account, [l + "\r\n" for g in groups for l in g]], o))
+    ctx.count("S3_scripted_logins", len(s3_runs))
+    ctx.count("S3_scripts", len(scripts))
+    ctx.count("S3_logins_that_sent_PASS", n_pass)
+    ctx.extra["S3_outcomes"] = dict(sorted(s3_out.items()))
+    if n_pass == 0:
+        ctx.disagree("S3-non-vacuity", "no scripted login sent a PASS command", ">0", 0)
+    if s3_runs:
+        groups, user, q, account, outcome, cs = s3_runs[min(len(s3_runs) - 1, 2 * 31)]
+        ctx.sample({"stream": "S3", "script": groups, "user": user, "password": q, "account": account, "outcome": outcome,
+                    "records": [list(c[:5]) for c in cs if c[0] != "asyncio"][:12]})
+
     # ------------------------------------------------------------ X: outside the domain (observations)
     obs = {}
     mk = "".join(MARK[:6])
@@ -761,6 +968,16 @@ def replay(ctx, data):
                 print(c[:5])
             res.append(cs)
         return has_marker(res[1]) is None and transcript(res[0]) == transcript(res[1])
+    if key in ("c20-login-script-leak", "c20-login-script-twin"):
+        p = r.get("twin") or r["password"]
+        runs, fails = scripted_pair(rng, r["script"], r["user"], p, r["account"])
+        for q, outcome, sent, cs in runs:
+            print("password", repr(q), "outcome", outcome, "peer received", sent)
+            for c in cs:
+                print("  ", c[:5])
+        for f in fails:
+            print("ORACLE:", f[0], f[1] if f[0] == "twin" else (list(f[1][0][:5]), f[1][1]))
+        return not fails
     if key == "c20-traceback-leak":
         mk = "".join(MARK[:6])
         chunk = b"PASS \xff" + mk.encode() + b"\r\n" if r.get("case") == "undecodable-bytes" else b"PASS " + (mk * 12000).encode() + b"\r\n"
